@@ -827,14 +827,27 @@ func triageLookup(table map[string]triage, key string, used map[string]bool) (tr
 		}
 		return k[:i] + k[j+1:]
 	}
-	n := norm(key)
-	if n == "" || !strings.Contains(key, "# err-local:") {
+	if !strings.Contains(key, "# err-local:") {
 		return triage{}, key, false
 	}
+	n := norm(key)
 	var cands []string
 	for k := range table {
-		if !used[k] && norm(k) == n {
+		if !used[k] && n != "" && norm(k) == n {
 			cands = append(cands, k)
+		}
+	}
+	if len(cands) == 0 {
+		// an error literal turned into a package-level sentinel (or back): the same failure of the same function
+		fnPart := key[:strings.Index(key, "# err-local:")]
+		isSentinel := strings.Contains(key, "# err-local:sentinel ")
+		for k := range table {
+			if used[k] || !strings.HasPrefix(k, fnPart+"# err-local:") {
+				continue
+			}
+			if isSentinel != strings.Contains(k, "# err-local:sentinel ") {
+				cands = append(cands, k)
+			}
 		}
 	}
 	sort.Strings(cands)
